@@ -107,7 +107,7 @@ def _model_job(job) -> List[Dict[str, Any]]:
                                         message=f"the number stored into rating.{fld} depends on {bp} (entry {entry})", detail={"entry": entry, "sources": bp}))
             elif ev.kind == "mutate":
                 origin = ev.data["origin"]
-                if origin.startswith("global:") or origin == "default-arg" or origin == "input:model":
+                if origin.startswith("global:") or origin == "default-arg" or origin in ("input:model", "input:model-owned"):
                     out.append(dict(rule="R14.2", verdict="VIOLATED", module=m, function=fn, construct=norm_text(ev.node, 120), line=line,
                                     message=f"{op} mutates a {origin} container ({ev.data['wkind']}) (entry {entry})", detail={"entry": entry, "origin": origin}))
             elif ev.kind == "global-write":
